@@ -150,6 +150,18 @@ func (r *Runner) Exec(t []string) string {
 			return "err:" + ErrClass(err)
 		}
 		return infoLine(fi)
+	case "lstat":
+		var fi os.FileInfo
+		var err error
+		if l, ok := r.Fs.(afero.Lstater); ok {
+			fi, _, err = l.LstatIfPossible(arg(1))
+		} else {
+			fi, err = r.Fs.Stat(arg(1))
+		}
+		if err != nil {
+			return "err:" + ErrClass(err)
+		}
+		return infoLine(fi)
 	case "chmod":
 		return fsErr(r.Fs.Chmod(arg(1), os.FileMode(atoi(t[2]))))
 	case "chown":
